@@ -253,14 +253,16 @@ inline void lib_throwing(int what, rawlog& r, fm::any_allocator*)
 }
 // unique_ptr<derived> -> unique_base_ptr<base> (the polymorphic deleter takes its reference from the deleter's
 // get_allocator()), then release through the base pointer
-inline void lib_base_convert(rawlog& r, rawlog*)
+// (not optimised: the by-value deleter parameter of the converting constructor then lives in a callee frame that is dead
+// afterwards, as in a debug build)
+__attribute__((noinline, optimize("O0"))) void lib_base_convert(rawlog& r, rawlog*)
 {
     auto                                d = fm::allocate_unique<pderived>(r);
     fm::unique_base_ptr<pbase, rawlog> b = std::move(d);
     scribble_stack();
     b.reset();
 }
-inline void lib_base_convert(rawlog& r, fm::any_allocator*)
+__attribute__((noinline, optimize("O0"))) void lib_base_convert(rawlog& r, fm::any_allocator*)
 {
     auto                                           d = fm::allocate_unique<pderived>(fm::any_allocator{}, r);
     fm::unique_base_ptr<pbase, fm::any_allocator> b = std::move(d);
